@@ -128,6 +128,14 @@ class Extract:
             # x.acquire()/release() outside `with` : refuse
             if isinstance(f, ast.Attribute) and f.attr in ("acquire", "release") and self.lock_name(f.value):
                 raise Untranslatable(f"{self.fname}:{node.lineno} bare {f.attr}() on a lock")
+            if isinstance(f, ast.Attribute) and f.attr in ("join", "stop", "start") and ast.unparse(f.value) == "self._refresh_thread":
+                # thread life cycle of the auto-refresh thread: start() spawns it, stop() sets its done
+                # flag, join() BLOCKS until it has finished
+                owner = {"Live": "LiveRefreshThread", "Progress": "ProgressRefreshThread"}.get(self.cls)
+                if owner is None:
+                    raise Untranslatable(f"{self.fname}:{node.lineno} _refresh_thread.{f.attr}() outside Live/Progress")
+                out.append(f"Call {q(owner + '.' + f.attr)}")
+                return
             if isinstance(f, ast.Attribute) and f.attr == "write" and isinstance(f.value, ast.Attribute) and f.value.attr == "file":
                 self.expr(f.value, out)
                 for a in node.args:
@@ -181,6 +189,9 @@ class Extract:
         if isinstance(node, ast.Attribute):
             if node.attr in LOCALS and self.recv_class(node.value) == "Console":
                 out.append(f"Local {q(node.attr)}")
+                return
+            if node.attr == "_started" and self.recv_class(node.value) == "Progress":
+                out.append(f"{'Rd' if isinstance(node.ctx, ast.Load) else 'Wr'} \"Progress._started\"")
                 return
             if node.attr in SHARED:
                 c = self.recv_class(node.value)
@@ -356,6 +367,8 @@ class Extract:
         if isinstance(t, ast.Attribute):
             if t.attr in LOCALS and self.recv_class(t.value) == "Console":
                 out.append(f"Local {q(t.attr)}")
+            elif t.attr == "_started" and self.recv_class(t.value) == "Progress":
+                out.append('Wr "Progress._started"')
             elif t.attr in SHARED and self.recv_class(t.value) in (SHARED[t.attr], "Live"):
                 out.append(f"Wr {q(SHARED[t.attr] + '.' + t.attr)}")
         elif isinstance(t, ast.Subscript):
